@@ -175,16 +175,16 @@ type c19Method struct {
 func c19GenDoc(r *xrand.Rand, idx int, tier string) *fw.Case {
 	var sb strings.Builder
 	sb.WriteString("JSIGHT 0.3\n")
-	nt := r.Range(1, 4)
+	nt := r.Range(1, 6)
 	type tagDecl struct{ name, ann string }
 	var decls []tagDecl
 	for i := 0; i < nt; i++ {
-		d := tagDecl{name: []string{"@T", "@T1", "@T12", "@T123"}[i]} // each name is a prefix of the next ones
+		d := tagDecl{name: []string{"@T", "@T1", "@T12", "@T123", "@T1234", "@T12345"}[i]} // each name is a prefix of the next ones
 		if r.Chance(1, 5) { // a declared tag that has the name an automatic path tag gets
 			d.name = []string{"@cats", "@dogs", "@a__b"}[r.Intn(3)]
 			for _, prev := range decls {
 				if prev.name == d.name {
-					d.name = []string{"@T", "@T1", "@T12", "@T123"}[i]
+					d.name = []string{"@T", "@T1", "@T12", "@T123", "@T1234", "@T12345"}[i]
 				}
 			}
 		}
@@ -212,6 +212,13 @@ func c19GenDoc(r *xrand.Rand, idx int, tier string) *fw.Case {
 		writeTags()
 	}
 	pick := func() []string {
+		if r.Chance(1, 4) { // many tags on one interaction: all the declared ones, in a random order
+			var out []string
+			for _, i := range r.Perm(len(decls)) {
+				out = append(out, decls[i].name)
+			}
+			return out
+		}
 		k := r.Range(1, 2)
 		var out []string
 		for i := 0; i < k; i++ {
@@ -328,7 +335,17 @@ func c19GenDoc(r *xrand.Rand, idx int, tier string) *fw.Case {
 		sb.WriteString("GET /\n  200 any\n")
 	}
 	if undeclared {
-		sb.WriteString("GET /undeclared/z\n  Tags @NoSuchTag\n  200 any\n")
+		// a name that no TAG declares - also one that an automatic tag of an earlier interaction already has
+		switch r.Intn(4) {
+		case 0:
+			sb.WriteString("GET /undeclared/z\n  Tags @NoSuchTag\n  200 any\n")
+		case 1:
+			sb.WriteString("GET /zzautoseg/one\n  200 any\nGET /undeclared/z\n  Tags @zzautoseg\n  200 any\n")
+		case 2:
+			sb.WriteString("GET /zzautoseg/one\n  200 any\nURL /undeclared/y\n  POST\n    Tags @zzautoseg\n    Request any\n    200 any\n")
+		default:
+			sb.WriteString("GET /zzautoseg/one\n  200 any\nURL /undeclared/rpc\n  Protocol json-rpc-2.0\n  Method m\n    Tags @zzautoseg\n    Params\n    {}\n")
+		}
 	}
 	sb.WriteString(macros.String())
 	if !tagsFirst {
